@@ -454,7 +454,7 @@ func TestC14(t *testing.T) {
 		if len(ev.harnessErrors) > 0 {
 			return
 		}
-		kC14.Run(t, ev, perShard(pick(1200, 150000)))
+		kC14.Run(t, ev, perShard(pick(1200, 40000)))
 		kC14Block.Run(t, ev, perShard(pick(1500, 500000)))
 		kC14Chain.Run(t, ev, perShard(pick(1500, 500000)))
 		runConcurrent(kC14Block, t, ev, perShard(pick(100, 10000)), 6)
